@@ -76,7 +76,14 @@ declare_tag_set!(pub thorough_implied_end = [cursory_implied_end]
 
 declare_tag_set!(pub heading_tag = "h1" "h2" "h3" "h4" "h5" "h6");
 
-declare_tag_set!(pub special_tag =
+/// The MathML and SVG members of the "special" category.
+fn foreign_special_tag(name: ExpandedName) -> bool {
+    mathml_text_integration_point(name)
+        || matches!(name, expanded_name!(mathml "annotation-xml"))
+        || svg_html_integration_point(name)
+}
+
+declare_tag_set!(pub special_tag = [foreign_special_tag] +
     "address" "applet" "area" "article" "aside" "base" "basefont" "bgsound" "blockquote" "body"
     "br" "button" "caption" "center" "col" "colgroup" "dd" "details" "dir" "div" "dl" "dt" "embed"
     "fieldset" "figcaption" "figure" "footer" "form" "frame" "frameset" "h1" "h2" "h3" "h4" "h5"
